@@ -223,19 +223,22 @@ def harnesses(tier: str) -> List[H]:
         cfgs += [("method", True), ("static", False), ("class", False), ("prop_set", False), ("init", False)]
     for (kind, is_async) in cfgs:
         for d1 in ((0,) if kind == "func" else (0, 1, 2)):
-            params = [I("a0", 0, 1), I("b0", 0, 2), I("s0", 0, 2 if d1 < 2 or tier == "thorough" else 1)]
-            defaults = {"d1": d1, "b1": 0, "s1": 0}
-            if d1 == 2:
-                params += [I("b1", 0, 1), I("s1", 0, 1)]
-            params += [I("act", 0, 3), I("po", 0, 2), B("tp"), B("q0"), B("q1"), B("q2"),
-                       L("xs", 2 if tier == "quick" else 3, -3, 3)]
-            name = "snap_{}{}{}".format(kind, "_async" if is_async else "", "" if kind == "func" else "_d%d" % d1)
-            out.append(H(name, bind(run_snap, (kind, is_async), ALL, defaults, [p.name for p in params]), params,
-                         tiers=(tier,), timeout=600,
-                         family="kind={} async={}: own precondition 0..1, postconditions 0..2, snapshots (copy, len); "
-                                "subclass level {}; body leaves / appends / clears / rebinds its list "
-                                "argument; OLD asked for by postconditions+error factories / error factories only / nobody".format(kind, is_async, ["absent", "not overriding",
-                                                                   "overriding with post 0..1 + snapshot 0..1"][d1]),
+            for po in (0, 1, 2):
+                params = [I("a0", 0, 1), I("b0", 0, 2), I("s0", 0, 2 if d1 < 2 or tier == "thorough" else 1)]
+                defaults = {"d1": d1, "b1": 0, "s1": 0, "po": po}
+                if d1 == 2:
+                    params += [I("b1", 0, 1), I("s1", 0, 1)]
+                params += [I("act", 0, 3), B("tp"), B("q0"), B("q1"), B("q2"),
+                           L("xs", 2 if tier == "quick" else 3, -3, 3)]
+                name = "snap_{}{}{}_po{}".format(kind, "_async" if is_async else "", "" if kind == "func" else "_d%d" % d1, po)
+                out.append(H(name, bind(run_snap, (kind, is_async), ALL, defaults, [p.name for p in params]), params,
+                             tiers=(tier,), timeout=600,
+                             family="kind={} async={}: own precondition 0..1, postconditions 0..2, snapshots (copy, len); "
+                                    "subclass level {}; body leaves / appends / clears / rebinds its list argument; OLD asked "
+                                    "for by {}".format(kind, is_async, ["absent", "not overriding",
+                                                                       "overriding with post 0..1 + snapshot 0..1"][d1],
+                                                       ["postconditions and error factories", "error factories only",
+                                                        "nobody"][po]),
                              family_size=2 * 3 * 3 * (4 if d1 == 2 else 1) * 4))
     out.append(H("snap_misuse", bind(run_misuse, (), ["m", "k"], {}, ["m", "k"]),
                  [I("m", 0, N_MISUSE - 1), I("k", 0, 2)], tiers=(tier,), timeout=120,
